@@ -212,6 +212,35 @@ func check(c Case) error {
 	if err != nil || m == nil {
 		return fail("pattern does not match its own token string %q (err=%v)", input, err)
 	}
+	// ---- numbers and names that designate no group (gaps of a sparse numbering, out of range, unknown names)
+	isNum := map[int]bool{}
+	maxNum := 0
+	for _, n := range wantNums {
+		isNum[n] = true
+		if n > maxNum {
+			maxNum = n
+		}
+	}
+	for n := -1; n <= maxNum+2; n++ {
+		if isNum[n] {
+			continue
+		}
+		if got := re.GroupNameFromNumber(n); got != "" {
+			return fail("GroupNameFromNumber(%d) = %q although no group has that number (numbers %v)", n, got, wantNums)
+		}
+		if g := m.GroupByNumber(n); g != nil {
+			return fail("GroupByNumber(%d) returns a group (%q) although no group has that number (numbers %v)", n, g.String(), wantNums)
+		}
+		if got := re.GroupNumberFromName(strconv.Itoa(n)); got != -1 {
+			return fail("GroupNumberFromName(%q) = %d although no group has that number or name", strconv.Itoa(n), got)
+		}
+	}
+	if got := re.GroupNumberFromName("no_such_group"); got != -1 {
+		return fail("GroupNumberFromName(unknown name) = %d, want -1", got)
+	}
+	if g := m.GroupByName("no_such_group"); g != nil {
+		return fail("GroupByName(unknown name) returns a group")
+	}
 	wantCaps := map[int][]string{}
 	for _, p := range b.parens {
 		if p.Cap > 0 {
